@@ -186,13 +186,60 @@ pub fn run(tier: Tier) -> i32 {
     });
     total.merge(c2);
 
+    // (d) the same acceptance rule under the crate's default feature set (separate build of
+    //     grenad with snappy only): acceptance must not depend on which codecs are compiled in
+    let df = vlib::report::verif_dir().join("harness/target/df/release/vmiri");
+    match std::process::Command::new(&df).arg("c13").output() {
+        Ok(o) if o.status.success() => {
+            let out = String::from_utf8_lossy(&o.stdout).to_string();
+            let mut done = false;
+            for l in out.lines() {
+                if let Some(v) = l.strip_prefix("C13DF-VIOLATION ") {
+                    total.hist("violation");
+                    let hexs = v.rsplit("hex=").next().unwrap_or("").to_string();
+                    total.violation(Violation {
+                        signature: format!("default-features;{}", v.split(';').next().unwrap_or("")),
+                        summary: format!("C13: grenad built with its default features: {}", v.split("; hex=").next().unwrap_or(v)),
+                        case: json!({"kind": "bytes_default_features", "hex": hexs}),
+                    });
+                }
+                if let Some(d) = l.strip_prefix("C13DF-DONE ") {
+                    done = true;
+                    let n: u64 = d.split_whitespace().next().and_then(|x| x.parse().ok()).unwrap_or(0);
+                    total.evaluations += n;
+                    total.states += n;
+                    total.transitions += n;
+                    total.hist_n("default_feature_build_trailers_checked", n);
+                }
+            }
+            if !done {
+                eprintln!("MACHINERY-FAILURE: the default-feature runner printed no result");
+                return 3;
+            }
+        }
+        other => {
+            eprintln!("MACHINERY-FAILURE: cannot run {}: {:?}", df.display(), other.map(|o| o.status));
+            return 3;
+        }
+    }
     rep.acc = total;
-    rep.set("rule", json!("E2: (a) every truncation length 0..=len of each finished file (the crash states of an append-only writer are exactly its prefixes), including a file whose values embed complete V1/V2 trailers so that accepted truncations exist; (b) every single-byte corruption of the 22 trailer bytes of each file and of V1 re-trailed files; (c) all byte strings of length <= 3 (16.8 M) and, for lengths 4..=40, {V1 magic, V2 magic, byte-swapped, each single-bit flip, neither} x codec byte 0..=255 x 4 fillers; each under catch_unwind; oracle: Reader::new is Ok iff the independent trailer predicate accepts, and when Ok the reported version, count and codec equal the independently parsed ones; states = byte strings, distinct_nontrivial = accepted byte strings"));
+    rep.set("rule", json!("E2: (a) every truncation length 0..=len of each finished file (the crash states of an append-only writer are exactly its prefixes), including a file whose values embed complete V1/V2 trailers so that accepted truncations exist; (b) every single-byte corruption of the 22 trailer bytes of each file and of V1 re-trailed files; (c) all byte strings of length <= 3 (16.8 M) and, for lengths 4..=40, {V1 magic, V2 magic, byte-swapped, each single-bit flip, neither} x codec byte 0..=255 x 4 fillers; each under catch_unwind; oracle: Reader::new is Ok iff the independent trailer predicate accepts, and when Ok the reported version, count and codec equal the independently parsed ones; (d) all 256 codec bytes x V1/V2 bare trailers and a finished file opened by a separate build of grenad with its default feature set only (acceptance must not depend on compiled-in codecs); states = byte strings, distinct_nontrivial = accepted byte strings"));
     rep.set("bound", json!({"finished_files": files.iter().map(|f| json!({"name": f.0, "len": f.1.len()})).collect::<Vec<_>>() }));
     rep.finish()
 }
 
 pub fn replay(case: &serde_json::Value) -> i32 {
+    if case["kind"] == "bytes_default_features" {
+        println!("this case concerns grenad built with its default feature set: run harness/target/df/release/vmiri c13 (built by ./check --build)");
+        let df = vlib::report::verif_dir().join("harness/target/df/release/vmiri");
+        let out = std::process::Command::new(&df).arg("c13").output().map(|o| String::from_utf8_lossy(&o.stdout).to_string()).unwrap_or_default();
+        return if out.contains("C13DF-VIOLATION") {
+            println!("VIOLATION property=C13 replay=(replayed)");
+            1
+        } else {
+            0
+        };
+    }
     let bytes = unhex(case["hex"].as_str().expect("bad replay: hex"));
     match check_bytes(&bytes) {
         Ok(acc) => {
